@@ -58,7 +58,7 @@ CHECKS = {
              note='Trusted: kv/spine.py column tracking. Bounded random search over documents; subsets exhaustive per document.', ref='4 C06'),
  'C09': dict(technique='exhaustive enumeration of the 25,200-case grid against an independent interval model (differential oracle)',
              text='Every case of the property\'s finite quantifier (7x5x9x40x2) is executed in both tiers and compared with a letter/semitone model written from music theory, plus inverse/unison/octave/P4+P5 laws; for this grid the answer is complete, not sampled.',
-             note='Trusted: kv/pitch.py. Results that need more than two accidentals are unconstrained. Only the Humdrum spelling path (the one the property names) is asserted.', ref='4 C09'),
+             note='Trusted: kv/pitch.py. Results that need more than two accidentals are unconstrained. The grid is run through the Humdrum spelling and through the American notation of argument and / or result (input_format / output_format of kernpy.transpose); one open known finding there (KF-C09-AMSHARP).', ref='4 C09'),
  'C11': dict(technique='exhaustive enumeration (37, 37^2, 705^2 include/exclude pairs, x37 match) + Hypothesis-generated larger sets against a hand-transcribed README tree',
              text='All categories, all ordered pairs and all include/exclude pairs of size <=2 are enumerated (match() on all of them in the thorough tier, 1/16 in quick); larger sets and argument shapes are generated by Hypothesis.',
              note='Trusted: kv/cats.py is the README tree. Larger sets are sampled, not enumerated.', ref='4 C11'),
